@@ -31,6 +31,8 @@ def cases(seed, tier):
     rng = np.random.default_rng([seed, 7])
     for i in range(n):
         yield {"family": FAMS[i % len(FAMS)], "sub": int(rng.integers(0, 2**31))}
+    for i in range(1 if tier == "quick" else 4):
+        yield {"family": "big", "sub": int(rng.integers(0, 2**31)), "first": i == 0, "cap": 15 * 10 ** 5 if tier == "quick" else 2 ** 22 + 5}
 
 
 def _names(sel):
@@ -273,7 +275,31 @@ def _container(rng, names, allow=("scalar", "list", "tuple", "array")):
     return np.array(names)
 
 
+def run_big(case):
+    """tables of a million rows and more: the row-wise operations must give, row for row, what they give on short
+    windows of the table"""
+    import esutil.numpy_util as nu
+    rng = np.random.default_rng(case["sub"])
+    n = gen.big_size(rng, cap=case.get("cap"), first=case.get("first", False))
+    t = np.zeros(n, dtype=[("id", "<i4"), ("x", ">f8"), ("tag", "S3"), ("v", "<i2", (2,))])
+    t["id"] = np.arange(n) % 100003
+    t["x"] = np.arange(n) * 0.25
+    t["tag"] = np.array([b"a", b"bc", b"xyz"])[np.arange(n) % 3]
+    t["v"][:, 0] = np.arange(n) % 7
+    win = gen.windows(rng, n)
+    COL.sample({"family": "big", "n": n}, limit=2)
+
+    def same(a, b):
+        return a.dtype == b.dtype and a.shape == b.shape and all(np.array_equal(a[k], b[k]) for k in a.dtype.names)
+    for label, f in (("extract_fields", lambda a: nu.extract_fields(a, ["x", "id"])), ("remove_fields", lambda a: nu.remove_fields(a, ["tag"])),
+                     ("reorder_fields", lambda a: nu.reorder_fields(a, ["v", "x"])),
+                     ("add_fields", lambda a: nu.add_fields(a, [("w", "f4"), ("n", "S2")], defaults=[1.5, "no"]))):
+        probe.big_vs_windows("C07.extract" if label == "extract_fields" else "C07." + label.split("_")[0], label, f, [t], win, same=same)
+
+
 def run_case(case):
+    if case["family"] == "big":
+        return run_big(case)
     import esutil.numpy_util as nu
     rng = np.random.default_rng(case["sub"])
     fam = case["family"]
